@@ -517,6 +517,56 @@ func monitorDecode(t *jsType, tok []byte, res string) []corr.Hit {
 	return nil
 }
 
+// ---------------------------------------------------------------- results a caller still holds
+
+// A []byte an encoder returned belongs to the caller: later encodes (of this or any other value, on this or another
+// goroutine) must not change it. Every such slice is kept with a private copy and compared again at the end of the script.
+type heldResult struct {
+	site string // "JsByte.ToJS", "JsInt64.MarshalJSON", …
+	of   string // the value encoded
+	raw  []byte // exactly the slice the encoder returned
+	copy []byte
+}
+
+var held []heldResult
+
+func hold(site, of string, raw []byte) {
+	held = append(held, heldResult{site, of, raw, append([]byte{}, raw...)})
+}
+
+// checkHeld: run a few more encodes (here and on a second goroutine), then compare every held slice with its copy.
+func checkHeld() []corr.Hit {
+	if len(held) == 0 {
+		return nil
+	}
+	other := tex.JsByte{201, 202, 203, 204, 205, 206, 207, 208, 209}
+	churn := func() {
+		_ = other.ToJS()
+		_ = other.ToString()
+		_, _ = other.MarshalJSON()
+		_, _ = json.Marshal(struct{ V tex.JsByte }{other})
+		_, _ = tex.JsInt64(-1234567890123456789).MarshalJSON()
+		_, _ = tex.JsUInt64(12345678901234567890).MarshalJSON()
+		_, _ = tex.Duration(-90000000001).MarshalJSON()
+		_, _ = tex.JsNanoTime(time.Unix(0, 1234567890123456789)).MarshalJSON()
+	}
+	churn()
+	done := make(chan struct{})
+	go func() { churn(); close(done) }()
+	<-done
+	var hits []corr.Hit
+	seen := map[string]bool{}
+	for _, h := range held {
+		if !bytes.Equal(h.raw, h.copy) && !seen[h.site] {
+			seen[h.site] = true
+			hits = append(hits, corr.Hit{Key: "C20:" + h.site + ":earlier-result-changed-by-later-encode",
+				What: fmt.Sprintf("%s of %s returned %q; after later encodes the same slice reads %q", h.site, h.of, h.copy, h.raw)})
+		}
+	}
+	held = held[:0]
+	return hits
+}
+
 // ---------------------------------------------------------------- one line
 
 func runLine(line string) (string, []corr.Hit) {
@@ -599,6 +649,7 @@ func runLine(line string) (string, []corr.Hit) {
 		if !bytes.Equal(d, lib) {
 			return fmt.Sprintf("marshal-path-mismatch direct=%q encoding/json=%q", d, lib), nil
 		}
+		hold(t.goName+".MarshalJSON", f[1], d)
 		res := decodeAll(t, d)
 		var hits []corr.Hit
 		want := "ok " + f[1]
@@ -635,7 +686,9 @@ func runLine(line string) (string, []corr.Hit) {
 				}
 			}
 			str := tex.JsByte(l).ToString()
-			js := string(tex.JsByte(l).ToJS())
+			raw := tex.JsByte(l).ToJS()
+			hold("JsByte.ToJS", f[1], raw)
+			js := string(raw)
 			fs := safely(func() (string, error) {
 				var v tex.JsByte
 				err := v.FromString(str)
@@ -925,6 +978,7 @@ func runTimeRt(op, secS, nsecS, how string) (string, []corr.Hit) {
 	if !bytes.Equal(enc, lib) {
 		return fmt.Sprintf("marshal-path-mismatch direct=%q encoding/json=%q", enc, lib), nil
 	}
+	hold(map[string]string{"ntime.rtt": "JsNanoTime", "utime.rtt": "JsUnixTime"}[op]+".MarshalJSON", secS+":"+nsecS, enc)
 	var got time.Time
 	res := safely(func() (string, error) {
 		v, err := dec(append([]byte{}, enc...))
